@@ -182,6 +182,14 @@ def listLabels (s : St) (r p : Str) : Out :=
     | none => .err
     | some l => .labels l
 
+/-- a listing that races with other clients: the keys are scanned in state `s0`, the descriptors are
+    fetched (existence check + read, `fetchOne`) in a later state `s1` -/
+def listLabelsRace (s0 s1 : St) (r p : Str) : Out :=
+  if !repoExists s0 r then .notfound
+  else match collect ((keysPrefix (listPrefix r p) s0.vmd).map (fetchOne s1 r)) with
+    | none => .err
+    | some l => .labels l
+
 inductive Op
   | mkRepo (r : Str)
   | mkBundle (r b : Str)
